@@ -206,6 +206,57 @@ theorem pool_kind_ends (k : Kind) (a : Access) (sl : Slot) :
     simp only [hl, Option.map_some, Option.some.injEq] at h
     rw [enabled_eq_shape, h]; exact enabledShape_expected _ _ k sl ctx
 
+/-- the model's pool functions resolve, through the generated table, to exactly the documented queue call -/
+theorem pool_call_resolved (k : Kind) (a : Access) (sl : Slot) (ctx : Nat) :
+    theCall table k a sl ctx = some (specCall k sl ctx) := by
+  obtain ⟨e, hl, he⟩ := pool_kind_ends k a sl
+  simp [theCall, hl, he ctx]
+
+/-- **push_many keeps array order.**  On a well-formed pool of any kind and access mode, pushing distinct
+free units `us` with one `push_many` call puts them at the end the context selects, in array order: a tail
+push (FIFO, FIFO_WAIT, RANDWS without a create/revive flag) appends `us`; a RANDWS head push leaves them
+in front, last unit first (each goes in front of the previous one) — exactly as the same pushes one by one. -/
+theorem pool_push_many_order (k : Kind) (a : Access) (ctx : Nat) {s : St} (hi : Inv s) (us : List Nat)
+    (hnd : us.Nodup) (hfree : ∀ u ∈ us, u ≠ 0 ∧ u ∉ abs s) :
+    ∃ s', poolPushMany table k a s us ctx = some s' ∧ Inv s' ∧
+      abs s' = (if specCall k .pushMany ctx = .pushHead then us.reverse ++ abs s else abs s ++ us) := by
+  have hc := pool_call_resolved k a .pushMany ctx
+  simp only [poolPushMany, hc, Option.bind_some]
+  by_cases hh : k = .randws ∧ ctx &&& docPushHeadMask ≠ 0
+  · have : specCall k .pushMany ctx = .pushHead := by simp [specCall, specCallM, hh]
+    rw [this]; simpa using pushHead_many hi us hnd hfree
+  · have : specCall k .pushMany ctx = .pushTail := by simp [specCall, specCallM, hh]
+    rw [this]; simpa using pushTail_many hi us hnd hfree
+
+/-- **pop_many hands out a contiguous run from one end.**  `pop_many` with room for `max` units returns the
+first `max` units in queue order (FIFO, FIFO_WAIT, RANDWS owner) or the last `max` units, last first (RANDWS
+with OWNER_SECONDARY), fewer only if the pool runs empty, and leaves exactly the others, in order. -/
+theorem pool_pop_many_order (k : Kind) (a : Access) (ctx max : Nat) {s : St} (hi : Inv s) :
+    ∃ s' got, poolPopMany table k a s max ctx = some (s', got) ∧ Inv s' ∧
+      (if specCall k .popMany ctx = .popTail
+        then got = (abs s).reverse.take max ∧ abs s' = ((abs s).reverse.drop max).reverse
+        else got = (abs s).take max ∧ abs s' = (abs s).drop max) := by
+  have hc := pool_call_resolved k a .popMany ctx
+  simp only [poolPopMany, hc, Option.bind_some]
+  by_cases hh : k = .randws ∧ ctx &&& docPopTailMask ≠ 0
+  · have : specCall k .popMany ctx = .popTail := by simp [specCall, specCallM, hh]
+    rw [this]
+    obtain ⟨s', hl, hi', ha⟩ := popLoop_tail max hi []
+    exact ⟨s', _, hl, hi', by simp [ha]⟩
+  · have : specCall k .popMany ctx = .popHead := by simp [specCall, specCallM, hh]
+    rw [this]
+    obtain ⟨s', hl, hi', ha⟩ := popLoop_head max hi []
+    exact ⟨s', _, hl, hi', by simp [ha]⟩
+
+/-- non-vacuity: a RANDWS create-push_many of 1,2,3 leaves 3,2,1 (head first); a thief's pop_many(2) then
+takes 1 and 2 from the tail; on FIFO the same calls append 1,2,3 and take 1,2 from the head -/
+example :
+    ((poolPushMany table .randws .mpmc (init St.fresh) [1, 2, 3] 0x1000).map abs = some [3, 2, 1]) ∧
+    ((poolPushMany table .randws .mpmc (init St.fresh) [1, 2, 3] 0x1000).bind
+        (fun s => (poolPopMany table .randws .mpmc s 2 0x200).map (fun p => (p.2, abs p.1))) = some ([1, 2], [3])) ∧
+    ((poolPushMany table .fifo .priv (init St.fresh) [1, 2, 3] 0x1000).bind
+        (fun s => (poolPopMany table .fifo .priv s 2 0x200).map (fun p => (p.2, abs p.1))) = some ([1, 2], [3])) := by decide
+
 /-- the `_many` functions (and only the multi-unit or retrying ones) make their queue call inside a
 loop — one `thread_queue_*` call per unit; single push / pop / remove make it once, outside any loop -/
 theorem pool_many_loops : ∀ e ∈ table,
